@@ -42,7 +42,7 @@ struct thrower {
     static constexpr unsigned long long MAGIC = 0x7468726f77657221ULL;
     unsigned long long magic;
     int v;
-    thrower(int x) : magic(MAGIC), v(x) { if (x < 0) throw std::runtime_error("negative"); ++ctor; }
+    thrower(int x) : magic(0), v(x) { if (x < 0) throw std::runtime_error("negative"); magic = MAGIC; ++ctor; }
     thrower(const thrower &o) : magic(MAGIC), v(o.v) { ++ctor; }
     thrower(thrower &&o) : magic(MAGIC), v(o.v) { ++ctor; }
     thrower &operator=(const thrower &o) { v = o.v; return *this; }
@@ -317,6 +317,7 @@ struct Scn {
         create_promise();
         if (fut->initialized()) anomaly("initialized() after get_promise()");
         if (prom->get_id() != static_cast<const void *>(&*fut)) anomaly("get_id() of the owning promise");
+        if (!*prom || !static_cast<bool>(*prom)) anomaly("operator bool / operator! of the owning promise");
         S().name_obj(&fut->_awaiter, "slot");
         S().name_obj(&prom->_owner, "owner");
         S().name_ptr(&awaiter::instance, "inst");
@@ -360,6 +361,7 @@ struct Scn {
                 }
                 if (!done) *prom = promise<T>();
                 if (prom->get_id() != nullptr) anomaly("get_id() of an emptied promise");
+                if (!!*prom || static_cast<bool>(*prom)) anomaly("operator bool / operator! of an emptied promise");
             }
             if (assign_from_val >= 0 && prom) assign_from(assign_from_val);
             kill_prom();
